@@ -47,6 +47,21 @@ CHECKS = {
         "Trusted: vfw/model/links.py. Corner cells are masked (covered by C12).",
         "DESIGN.md 4/C05",
     ),
+    "C07": (
+        "Hypothesis-generated column profiles x bins vs exact rational overlap model + conservation / merge / reversal / independence relations",
+        "Generated-input search at kernel and Grid.transform level; the weight matrix is extracted with unit vectors and compared "
+        "with exact rational overlap fractions; conservation, non-negativity, bin merging, bin-order reversal and column "
+        "independence are asserted as relations.",
+        "Trusted: fractions-based model; numba replaced by a pure-Python guvectorize stand-in that runs the unmodified kernel source.",
+        "DESIGN.md 4/C07",
+    ),
+    "C08": (
+        "Hypothesis-generated profiles x levels x options vs own piecewise-linear interpolant + column independence + naming rules",
+        "Generated-input search at kernel and Grid.transform level (mixed directions per column, unsorted levels, end/knot/outside "
+        "levels, N-D targets, anonymous/omitted target_data, suffix, dask chunking) against an exact rational interpolant.",
+        "Trusted: the interpolant; numba stand-in as for C07; stated forward-error tolerance.",
+        "DESIGN.md 4/C08",
+    ),
     "C09": (
         "Hypothesis-generated layouts/shifts/rules vs geometric running-sum model + inverse/commutation/cumint relations",
         "Generated-input search against a running-sum model stated on coordinates (sum of inputs before the target point) "
